@@ -1362,39 +1362,55 @@ def mon_c15(w, F, vd):
                 vd.bad("C15.ping_before_connack", "PINGREQ written before CONNACK")
             continue
         horizon = t_end if t_end is not None else w.now()
+        # a reactor that runs its delayed calls late (op 'late') shifts everything by at most that much
+        tol = EPS + getattr(w, "max_late", 0.0)
         # PINGREQ at least every k seconds from CONNACK to the end of the connection
         prev = t_up
         for (pi, pt, wh) in pings:
             if end_ei is not None and pi > end_ei:
                 break
-            if pt - prev > k + EPS:
+            if pt - prev > k + tol:
                 vd.bad("C15.ping_gap", "keepalive %d: %.3fs without a PINGREQ" % (k, pt - prev))
                 break
             prev = pt
         else:
-            if horizon - prev > k + EPS:
+            if horizon - prev > k + tol:
                 vd.bad("C15.ping_gap", "keepalive %d: no PINGREQ for %.3fs while the connection was up" % (k, horizon - prev))
+        # PINGRESP carries no identifier: each one answers the oldest PINGREQ still unanswered
+        answered = {}
+        waiting = []
+        for (kind, ei, j, t) in sorted([("q", p[0], j, p[1]) for j, p in enumerate(pings)] +
+                                       [("r", r[0], None, r[1]) for r in resps], key=lambda x: x[1]):
+            if kind == "q":
+                waiting.append(j)
+            elif waiting:
+                answered[waiting.pop(0)] = t
         # unanswered PINGREQ => abort no later than t+k ; all answered in time => keepalive never closes
         all_in_time = True
-        for (pi, pt, wh) in pings:
+        overdue = []      # (deadline, ping time) of PINGREQs not answered before their deadline
+        for j, (pi, pt, wh) in enumerate(pings):
             if end_ei is not None and pi > end_ei:
                 break
             if t_end is not None and t_end - pt <= EPS:
                 continue          # written in the very instant the connection ended: nobody could have answered it
-            inside = [r for r in resps if r[0] > pi and r[1] < pt + k - EPS]
-            edge = [r for r in resps if r[0] > pi and abs(r[1] - (pt + k)) <= EPS]
+            at = answered.get(j)
+            inside = at is not None and at < pt + k - EPS
+            edge = at is not None and not inside and at <= pt + k + tol
             if not inside:
                 all_in_time = False
-                if not edge and horizon > pt + k + EPS:
+                overdue.append((pt + k, pt))
+                if not edge and horizon > pt + k + tol:
                     vd.bad("C15.no_abort", "PINGREQ at %.3f unanswered for keepalive %d but the connection was not aborted by %.3f" % (pt, k, pt + k))
                     break
-                if not edge and t_end is not None and t_end > pt + k + EPS:
+                if not edge and t_end is not None and t_end > pt + k + tol:
                     vd.bad("C15.late_abort", "PINGREQ at %.3f unanswered, connection ended only at %.3f" % (pt, t_end))
                     break
-        if all_in_time and pings:
+        if pings:
             for a in aborts[:1]:
-                if a.i == end_ei and a.ctx and a.ctx[0] == "timer":
-                    vd.bad("C15.closed_though_answered", "every PINGREQ was answered in time but a timer closed the connection at %.3f" % a.t)
+                if a.i == end_ei and a.ctx and a.ctx[0] == "timer" and not any(dl <= a.t + tol for (dl, pt) in overdue):
+                    vd.bad("C15.closed_though_answered", "a timer closed the connection at %.3f although no PINGREQ had gone "
+                           "unanswered for %d s (PINGREQs at %s, PINGRESPs at %s)" % (
+                               a.t, k, ", ".join("%.3f" % p[1] for p in pings[-3:]), ", ".join("%.3f" % r[1] for r in resps[-3:])))
         n_periods = len([p for p in pings if end_ei is None or p[0] < end_ei])
         if n_periods >= 3 or (resps and not all_in_time) or len(resps) > len(pings):
             nontriv = True
